@@ -160,6 +160,7 @@ func TestWorker(t *testing.T) {
 		}
 		if len(res.Violations) > 0 {
 			v := res.Violations[0]
+			out.Probes["runs_with_violation"]++
 			if classesSeen[v.Class] {
 				continue // one replay per class per worker is enough
 			}
